@@ -181,7 +181,7 @@ class PathSens:
             del env[k]
 
     def _kill_prefix(self, env, root, s):
-        for k in [k for k in env if k[0] in ("d", "pv") and k[1] == root and k[2][:len(s)] == s]:
+        for k in [k for k in env if k[0] in ("d", "pv", "nd") and k[1] == root and k[2][:len(s)] == s]:
             del env[k]
 
     def _learn(self, env, key, val, depth=0):
@@ -495,6 +495,13 @@ class PathSens:
                                 self._learn(e2, key, v)
                             except Infeasible:
                                 ok = False
+                    if ok and known is None and key not in e2:
+                        # remember which values the otherwise edge excludes for a tested discriminant
+                        sd = self.single.get(r) if s == () else None
+                        if sd and sd[0] == "stmt" and sd[3]["rv"]["k"] == "discr":
+                            pr, pp = self.canon_place(sd[3]["rv"]["place"])
+                            prev = e2.get(("nd", pr, pp), ())
+                            e2[("nd", pr, pp)] = tuple(sorted(set(prev) | set(listed)))
                     if ok:
                         out.append((t["otherwise"], e2, ("sw", "otherwise")))
             else:
